@@ -8,7 +8,7 @@ through the real crate.  An engine returns a JSON-serialisable dict:
                (only the earliest divergence of each behaviour)
   errors:     tool errors (a non-empty list makes the check exit 2)
 """
-import json, os, subprocess, time
+import json, shutil, glob, os, subprocess, time
 
 from vlib import (BUILD, SPEC, VERIF, ToolError, build_harness, cache_get, cache_put, deviations_for,
                   parse_coverage, replay_parallel, run_tlc, tla_set, tree_hash, write_cfg, known_findings)
@@ -863,4 +863,117 @@ def engine_abi(tier, seed):
     res = engine_cases('abi', 'MC_Abi', ABI_CFG, 'replay_abi', tier, seed, model='Abi')
     for d in res['divergences']:
         d['tag'] = 'C13'
+    return res
+
+
+OPLIFE_CFG = """SPECIFICATION TraceSpec
+CONSTANTS
+    Ids <- IdsDef
+INVARIANTS
+    TraceInvariants
+    NotAtEnd
+CHECK_DEADLOCK FALSE
+"""
+
+OPLIFE_MODEL_CFG = """SPECIFICATION Spec
+CONSTANTS
+    Ids = {1, 2}
+INVARIANTS
+    TypeOK
+    MemSafe
+    DeadIsFinal
+CONSTRAINT
+    Small
+CHECK_DEADLOCK FALSE
+"""
+
+# which property an event that no action of OpLife explains speaks about
+OPLIFE_TAGS = {'New': 'C01', 'Publish': 'C01', 'Submitted': 'C02', 'QueueFull': 'C03', 'Route': 'C02', 'Update': 'C02',
+               'Pending': 'C02', 'Result': 'C02', 'End': 'C02', 'Restart': 'C09', 'Reset': 'C10', 'Drop': 'C06', 'Free': 'C01'}
+
+
+def engine_suite(tier, seed):
+    """Direction B on the real kernel: the repository's own functional tests are
+    run with the hooks compiled in (RUSTFLAGS --cfg a10_verif, own target
+    directory), the recorded events of every operation (about 1 700 operations,
+    15 000 events per run) are validated by TLC against OpLife.tla."""
+    import oplife_trace
+    from vlib import REPO
+    key = 'suite-%s-%s-%d' % (tier, tree_hash(), seed)
+    cached = cache_get(key)
+    if cached:
+        cached['cached'] = True
+        return cached
+    t0 = time.time()
+    res = {'engine': 'suite', 'tier': tier, 'tlc': [], 'replays': [], 'divergences': [], 'errors': [], 'samples': [],
+           'cached': False}
+    # The contract itself (small instance).
+    cfg = write_cfg('oplife_model', OPLIFE_MODEL_CFG)
+    r = run_tlc('oplife_model', 'MC_OpLife', cfg, timeout=1200)
+    r['purpose'] = 'OpLife contract: MemSafe / DeadIsFinal for two operations (results queue bounded)'
+    res['tlc'].append(r)
+    if not r['ok']:
+        res['errors'].append('TLC %s: %s' % (r['name'], r['violated'] or r['error']))
+    target = os.path.join(BUILD, 'suite_target')
+    runs = [('default', None), ('two test threads', '2')] if tier == 'quick' else \
+           [('default', None), ('one test thread', '1'), ('two test threads', '2'), ('four', '4'), ('sixteen', '16'), ('two again', '2')]
+    for n, (label, threads) in enumerate(runs):
+        tdir = os.path.join(BUILD, 'suite_trace', 'run_%d' % n)
+        shutil.rmtree(tdir, ignore_errors=True)
+        os.makedirs(tdir)
+        env = dict(os.environ, RUSTFLAGS='--cfg a10_verif', CARGO_TARGET_DIR=target, A10_VERIF_TRACE=tdir, CARGO_NET_OFFLINE='true')
+        cmd = ['timeout', '1500', 'cargo', 'test', '--offline', '--test', 'functional']
+        if threads:
+            cmd += ['--', '--test-threads', threads]
+        with open(os.path.join(tdir, 'cargo.log'), 'w') as log:
+            p = subprocess.run(cmd, cwd=REPO, env=env, stdin=subprocess.DEVNULL, stdout=log, stderr=subprocess.STDOUT)
+        text = open(os.path.join(tdir, 'cargo.log'), errors='replace').read()
+        if 'error: could not compile' in text or 'error[E' in text:
+            res['errors'].append('building the test suite with the hooks failed: %s' % text[-300:])
+            break
+        traces = sorted(glob.glob(os.path.join(tdir, 'trace.*.ndjson')))
+        if not traces:
+            res['errors'].append('the test suite recorded no events (exit %d): %s' % (p.returncode, text[-300:]))
+            break
+        nd = os.path.join(tdir, 'oplife.ndjson')
+        try:
+            stats = oplife_trace.convert(traces, nd)
+        except SystemExit as e:
+            res['errors'].append('trace conversion: %s' % e)
+            break
+        tv = run_trace_validation('trace_oplife_%d' % n, 'MC_Trace_OpLife', OPLIFE_CFG, nd, timeout=1200)
+        tv['traces'] = len(traces)
+        tv['events'] = stats['events_out']
+        tv['purpose'] = 'real kernel: functional test suite (%s), %d operations, %d events; suite exit status %d' % (
+            label, stats['operations'], stats['events_out'], p.returncode)
+        res['tlc'].append(tv)
+        res['replays'].append({'model': 'OpLife/recorded from the functional test suite on the real kernel', 'variant': label,
+                               'paths': stats['operations'], 'steps': stats['events_out'], 'diverged_paths': 0 if tv['accepted'] else 1,
+                               'suite_exit_status': p.returncode, 'crashes': 0})
+        if not tv['accepted']:
+            if tv['error']:
+                res['errors'].append('trace validation failed to run: %s' % tv['error'])
+            else:
+                lines = open(nd).read().splitlines()
+                if tv.get('violated') in ('TraceInvariants',):
+                    k = max(0, min(len(lines), tv.get('depth', 1) - 1) - 1)
+                    ev = json.loads(lines[k]) if lines else {}
+                    tag, what = ('C01', 'an invariant of OpLife (MemSafe / DeadIsFinal) is violated after event %d %s' % (k, ev))
+                else:
+                    k = max(0, min(len(lines) - 1, tv.get('distinct', 1) - 1))
+                    ev = json.loads(lines[k]) if lines else {}
+                    tag = OPLIFE_TAGS.get(ev.get('ev'), 'C02')
+                    what = 'event %d %s of the recorded execution is not a step of OpLife' % (k, ev)
+                history = [json.loads(l) for l in lines[:k + 1] if json.loads(l).get('i') == ev.get('i')][-12:]
+                keep = os.path.join(BUILD, 'replay_files', 'suite_trace_%d.ndjson' % n)
+                os.makedirs(os.path.dirname(keep), exist_ok=True)
+                shutil.copy(nd, keep)
+                res['divergences'].append({'tag': tag, 'model': 'OpLife', 'path': n, 'step': k, 'field': what, 'expected': 'a behaviour of OpLife',
+                                           'observed': history, 'trace_file': keep})
+        if n == 0:
+            res['samples'].append({'model': 'OpLife', 'first_events': [json.loads(l) for l in open(nd).read().splitlines()[:12]]})
+    res['wall_s'] = round(time.time() - t0, 1)
+    res['divergences_total'] = len(res['divergences'])
+    if not res['errors']:
+        cache_put(key, res)
     return res
